@@ -408,6 +408,11 @@ class _DWalker(FlowWalker):
             self.an.compare_where[(node.lineno, norm(node))] = (self.fi, tuple(self.an.stack))
         return out | rs
 
+    def ev_NamedExpr(self, node, env):
+        v = self.ev(node.value, env)
+        self.assign(node.target, v, env, node)
+        return v
+
     def ev_IfExp(self, node, env):
         r = self.none_test(node.test, env)
         t = flat(self.ev(node.test, env))
